@@ -609,7 +609,7 @@ impl TracingEventReceiver {
 pub mod verif {
     //! Verification hooks for the process-wide arena.
 
-    pub use super::arena::{verif_arena_stats, verif_set_yield};
+    pub use super::arena::{verif_arena_stats, verif_set_weak_hash, verif_set_yield};
 }
 
 impl Drop for TracingEventReceiver {
